@@ -48,6 +48,9 @@ type HReq struct {
 	Rules2   []model.Rule `json:"rules2"` // under the https:// cap for both-caps
 	Spoof    string       `json:"spoof"`  // "" or a header claiming another source/identity (X-Forwarded-For, X-Real-Ip, Forwarded, Tailscale-User-Login)
 	Outage   bool         `json:"outage,omitempty"` // the state directory is unavailable while the request is served (only matters if it would write)
+	// the body arrives with Transfer-Encoding: chunked, i.e. without a declared length (any HTTP/1.1
+	// client may send it that way; Go's own does for bodies of unknown size)
+	Chunked bool `json:"chunked,omitempty"`
 }
 
 type HTTPCase struct {
@@ -345,6 +348,10 @@ func runC08(t *testing.T, c HTTPCase) (*h.Violation, h.Info) {
 		}
 		req := httptest.NewRequest(r.Method, "/api/"+r.Endpoint, bytes.NewReader(body))
 		req.RemoteAddr = remote
+		if r.Chunked {
+			req.ContentLength, req.TransferEncoding = -1, []string{"chunked"}
+			info.Class("body-without-declared-length")
+		}
 		if r.CT != "" {
 			req.Header.Set("Content-Type", r.CT)
 		}
@@ -388,21 +395,21 @@ func runC08(t *testing.T, c HTTPCase) (*h.Violation, h.Info) {
 			b0 := shadow.M.Render(true)
 			if wantS := shadow.Expect(effective, op, ver); wantS.Class == model.OK && shadow.M.Render(true) != b0 {
 				outage = true // the request is fine and would write: its save will fail
-				if err := os.Rename(dir, dir+".away"); err != nil {
-					return h.V("harness", "rename: %v", err), info
-				}
 			}
 		}
-		if v := h.Safely(func() *h.Violation { mux.ServeHTTP(w, req); return nil }); v != nil {
-			if outage {
-				os.Rename(dir+".away", dir)
-			}
-			return h.V("never-a-panic", "request %d %+v: handler panicked: %s", i, r, v.Detail), info
-		}
+		var pv *h.Violation
+		serve := func() { pv = h.Safely(func() *h.Violation { mux.ServeHTTP(w, req); return nil }) }
 		if outage {
-			if err := os.Rename(dir+".away", dir); err != nil {
-				return h.V("harness", "rename back: %v", err), info
+			held, err := dbx.Outage(dir, serve)
+			if err != nil {
+				return h.V("harness", "%v", err), info
 			}
+			outage = held // (not held: the code put the directory back itself - an ordinary request)
+		} else {
+			serve()
+		}
+		if pv != nil {
+			return h.V("never-a-panic", "request %d %+v: handler panicked: %s", i, r, pv.Detail), info
 		}
 		status, reply := w.Code, w.Body.Bytes()
 		if outage {
@@ -457,6 +464,13 @@ func runC08(t *testing.T, c HTTPCase) (*h.Violation, h.Info) {
 		if op.Kind == "put" {
 			stored = append(stored, op.Val)
 		}
+		if op.Kind == "delver" || op.Kind == "activate" {
+			for _, dv := range tr.Deleted[op.Name] {
+				if dv == ver && tr.M[op.Name] != nil {
+					info.Class(op.Kind + "-naming-a-version-deleted-earlier")
+				}
+			}
+		}
 		want := tr.Expect(effective, op, ver)
 		var wantStatus []int
 		switch want.Class {
@@ -479,6 +493,9 @@ func runC08(t *testing.T, c HTTPCase) (*h.Violation, h.Info) {
 			okStatus = status >= 400 && status != 403 && status != 404
 			if want.Class == model.Denied && status == 403 {
 				okStatus = true
+			}
+			if want.AltNotFound && status == 404 {
+				okStatus = true // the secret does not exist AND the version number is invalid: either answer
 			}
 		}
 		if !okStatus {
@@ -584,6 +601,12 @@ var c08Names = []string{"a", "b", "dev/a", "a\nb", "", "_internal/x", "a", "zz"}
 // name, version, conditional flag) under their OWN identity and grant - two peers polling the same secret.
 func sameQuestionByAnother(rt *rapid.T, reqs []HReq) []HReq {
 	for i := 1; i < len(reqs); i++ {
+		if rapid.IntRange(0, 5).Draw(rt, "retry") == 0 {
+			// a client that sends the very same request again (it did not see the first answer): the second
+			// one is judged like any other request, in the state the first one left behind
+			reqs[i] = reqs[i-1]
+			continue
+		}
 		if rapid.IntRange(0, 3).Draw(rt, "same-question") == 0 {
 			p := reqs[i-1]
 			reqs[i].Endpoint, reqs[i].Name, reqs[i].VSel, reqs[i].VArg, reqs[i].IfChg = p.Endpoint, p.Name, p.VSel, p.VArg, p.IfChg
@@ -596,7 +619,7 @@ func genHReq(rt *rapid.T) HReq {
 	r := HReq{Method: "POST", CT: "application/json", Hdr: "setec", Addr: "known", BodyKind: "valid"}
 	r.Endpoint = rapid.SampledFrom([]string{"list", "get", "get", "get", "info", "put", "put", "activate", "delete-version", "delete"}).Draw(rt, "endpoint")
 	r.Name = rapid.SampledFrom(c08Names).Draw(rt, "name")
-	r.VSel = rapid.SampledFrom([]string{"zero", "active", "latest", "next", "existing", "deleted", "huge"}).Draw(rt, "vsel")
+	r.VSel = rapid.SampledFrom([]string{"zero", "active", "latest", "next", "existing", "inactive", "inactive", "deleted", "deleted", "huge"}).Draw(rt, "vsel")
 	r.VArg = rapid.IntRange(0, 4).Draw(rt, "varg")
 	r.IfChg = rapid.Bool().Draw(rt, "ifchanged")
 	if r.Endpoint == "put" {
@@ -657,6 +680,7 @@ func genHReq(rt *rapid.T) HReq {
 	}
 	r.Spoof = rapid.SampledFrom([]string{"", "", "", "X-Forwarded-For", "X-Real-Ip", "Forwarded", "Tailscale-User-Login"}).Draw(rt, "spoof")
 	r.Outage = rapid.IntRange(0, 2).Draw(rt, "outage") == 0
+	r.Chunked = rapid.IntRange(0, 3).Draw(rt, "chunked") == 0
 	return r
 }
 
@@ -665,6 +689,26 @@ var c08 = &h.Campaign[HTTPCase]{
 	Rule: "rapid: a superuser pre-history, then 1-12 requests built by class (construction, not rejection): method, Content-Type, browser header, endpoint (all seven), body class (valid, valid with zero-valued fields omitted, valid with lower-case/extra fields, null, truncated at a generated offset, wrong JSON type, bad base64, version out of range, non-JSON, empty), source address (known, unknown, unparsable), WhoIs answer (tagged, tagged with the placeholder login name, user, anonymous, error, a grant list that mixes valid rules with a non-rule, rules under the plain cap / the https:// cap / both / plain cap present but empty, malformed grants), with 0-3 gates broken per request; rejected => non-2xx, no audit record, dump unchanged; accepted => status and JSON body from the ACL+map model under exactly the effective rules, recorded principal = identity; no non-200 body contains stored values; non-trivial = request rejected by exactly one gate, or accepted with a status other than 200; distinct by scenario",
 	Quick: 3000, Thorough: 600000,
 	Gen: func(rt *rapid.T) HTTPCase {
+		c := genHTTPCase(rt)
+		if rapid.IntRange(0, 5).Draw(rt, "rotation-tail") == 0 {
+			// an operator rotates "a" (two more versions), deletes the older one - and the client, not
+			// having seen the answer, sends the delete-version again; then somebody names the deleted
+			// version in another request
+			c.Pre = append(c.Pre, dbx.Op{Kind: "put", Name: "a", Val: []byte("rotated-1")}, dbx.Op{Kind: "put", Name: "a", Val: []byte("rotated-2")})
+			del := HReq{Method: "POST", CT: "application/json", Hdr: "setec", Addr: "known", BodyKind: "valid", Endpoint: "delete-version", Name: "a", VSel: "inactive",
+				VArg: rapid.IntRange(0, 3).Draw(rt, "tail-varg"), Who: rapid.SampledFrom([]string{"tagged", "user"}).Draw(rt, "tail-who"), Rules: model.SuperRules()}
+			again := del
+			again.VSel, again.VArg = "deleted", 100 // resolves to a version deleted earlier (most likely the one just deleted)
+			other := again
+			other.Endpoint = rapid.SampledFrom([]string{"activate", "get", "delete-version"}).Draw(rt, "tail-other")
+			c.Reqs = append(c.Reqs, del, again, other)
+		}
+		return c
+	},
+	Run: runC08,
+}
+
+func genHTTPCase(rt *rapid.T) HTTPCase {
 		return HTTPCase{
 			Pre: rapid.SliceOfN(rapid.Custom(func(rt *rapid.T) dbx.Op {
 				o := dbx.GenOp(rt, []string{"a", "b", "dev/a", "a\nb"}, []string{"put", "put", "put", "activate", "delver"}, 1)
@@ -675,8 +719,6 @@ var c08 = &h.Campaign[HTTPCase]{
 			}), h.LenBias(rt, 0, 10), 10).Draw(rt, "pre"),
 			Reqs: sameQuestionByAnother(rt, rapid.SliceOfN(rapid.Custom(genHReq), 1, 12).Draw(rt, "reqs")),
 		}
-	},
-	Run: runC08,
 }
 
 func init() { c08.Register() }
